@@ -175,12 +175,8 @@ impl Sub for DefaultTimeRules {
         };
         vio!("{}:accepted:{}:{}", pid, which, detail_type; "the default parser accepted payload {} ({}; now = {})", payload, p.label(), tgen::render(now.0, now.1, &Rendering { offset_min: 0, digits: 3, sep: 0, zulu: 1 }));
       }
-      (Want::Accept, Ok(v)) => {
-        if v.to_string() != serde_json::from_str::<Value>(&payload).unwrap().to_string() {
-          vio!("{}:wrong-json:{}", pid, p.label(); "parser returned {} for payload {}", v, payload);
-        }
-        Verdict::Pass
-      }
+      // (what JSON the parser returns on acceptance is C14's subject, not judged here)
+      (Want::Accept, Ok(_)) => Verdict::Pass,
       (Want::Accept, Err(e)) => vio!("{}:rejected-valid:{}:exp={}:nbf={}", pid, e.variant, c.exp.class(), c.nbf.class(); "the default parser rejected payload {} ({}): {}", payload, p.label(), e.text),
     }
   }
